@@ -1,14 +1,15 @@
 (* A declarative layout language for TL-B types: the independent reading of block.tlb.
    - a layout says, constructor by constructor, which tag bits and which fields follow each other;
    - [encode] turns a Python value (Model.Dtree.pv) into the bits and references block.tlb prescribes for
-     it, using the bit-level encodings of Spec/TlbPrim.v and Spec/TlbVal.v only;
+     it, using the bit-level encodings of Spec/TlbPrim.v and Spec/TlbVal.v and, for dictionaries, the
+     canonical Hashmap tree of Spec/Hashmap.v only;
    - [wt] says which values a layout admits;
    - [compile] turns a layout into the canonical decision tree of slice operations, in exactly the shape
      tools/trace_tlb.py reports for the library's hand-written `deserialize` methods.
    Definitions only.  The theorem relating them is Proofs/TlbProofs.v (compile_correct). *)
 From Coq Require Import NArith ZArith List Bool String Ascii.
-From PTQ Require Import Base.Result Base.Bytes Base.Bits Model.Cell Model.Builder Model.Dtree
-  Spec.TlbPrim Spec.TlbVal.
+From PTQ Require Import Base.Result Base.Bytes Base.Bits Model.Cell Model.Builder Model.Hashmap Model.Dtree
+  Spec.TlbPrim Spec.TlbVal Spec.Hashmap.
 Import ListNotations.
 Local Open Scope Z_scope.
 
@@ -40,20 +41,27 @@ Inductive fty :=
 | FType (T : string) (args : list Z)    (* nested type, parsed inline *)
 | FRefType (T : string) (args : list Z) (* ^T *)
 | FMaybe (f : fty)                      (* Maybe X: presence bit (load_bit), then X *)
-| FDict (n : nat) (v : fty).            (* HashmapE n V, load_dict *)
+| FDict (n : nat) (v : fty)             (* HashmapE n V, load_dict: None when empty, else a dict *)
+| FConst (c : cval).                    (* no bits: True, Unit (dictionary values) *)
 
 (* how a run of constant bits is read before it is compared *)
 Inductive chunk := CkBits (n : nat) | CkUint (n : nat) | CkBytes (k : nat).
 Inductive tagmode := TagBitwise | TagChunk (c : chunk).
 
+(* operands of a constraint { a <= b }: an integer field bound earlier in the constructor, or a literal *)
+Inductive gref := GName (nm : string) | GNum (z : Z).
+
 Inductive item :=
 | INamed (nm : string) (f : fty)
 | IGroup (fs : list (string * fty))              (* ^[ fields ] *)
-| IConst (c : chunk) (bits : list bool).         (* x:(## n) { x = const }: read, checked, not kept *)
+| IConst (c : chunk) (bits : list bool)          (* x:(## n) { x = const }: read, checked, not kept *)
+| INamedHex (nm hexnm : string) (n : nat)        (* bits(8n) kept twice: as bytes and as bytes.hex() *)
+| IGuard (op : gop) (a b : gref).                (* { a op b }: no bits, checked *)
 
 Inductive cret :=
 | RObj (cls : string) (consts : list (string * cval))
-| RNone.                                         (* the constructor is represented by None *)
+| RNone                                          (* the constructor is represented by None *)
+| RSame.                                         (* _ X = T: the value of the only field is returned *)
 
 Record ctor := mkCtor { c_tag : list bool; c_ret : cret; c_items : list item }.
 Record tlayout := mkType { t_mode : tagmode; t_ctors : list ctor }.
@@ -129,6 +137,8 @@ Definition item_names (it : item) : list string :=
   | INamed nm _ => [nm]
   | IGroup fs => map fst fs
   | IConst _ _ => []
+  | INamedHex nm hexnm _ => [nm; hexnm]
+  | IGuard _ _ _ => []
   end.
 Definition items_names (its : list item) : list string := flat_map item_names its.
 Definition ctor_names (consts : list (string * cval)) (its : list item) : list string :=
@@ -140,8 +150,20 @@ Definition ctor_matches (c : ctor) (v : pv) : bool :=
   | RNone, PNone => true
   | RObj cls consts, PObj cls' fs =>
       String.eqb cls cls' && forallb (fun '(nm, cv) => cval_matchb cv (assoc nm fs)) consts
+  | RSame, _ => true
   | _, _ => false
   end.
+(* where the constructor's fields are found in its value *)
+Definition ctor_look (c : ctor) (v : pv) : string -> pv :=
+  match c_ret c with RSame => fun _ => v | _ => field_of v end.
+
+(* int(x) as the comparisons of the tracer see it *)
+Definition numof (v : pv) : Z := match v with PInt z => z | PBool true => 1 | _ => 0 end.
+Definition gnum (look : string -> pv) (g : gref) : Z :=
+  match g with GName nm => numof (look nm) | GNum z => z end.
+Definition guard_holds (look : string -> pv) (op : gop) (a b : gref) : bool :=
+  let x := gnum look a in let y := gnum look b in
+  match op with GLt => x <? y | GLe => x <=? y | GGt => y <? x | GGe => y <=? x end.
 
 (* ------------------------------------------------------------------------------------------------ *)
 (* The encoder                                                                                       *)
@@ -182,8 +204,22 @@ Section Enc.
         | _ => bind (enc_field g x) (fun '(b, r) => Ok (true :: b, r))
         end
     | FDict n vf =>
-        (* hme_empty$0; non-empty dictionaries are outside the fragment covered by compile_correct *)
-        match x with PNone => ok_bits [false] | _ => Err EDict end
+        (* hme_empty$0 | hme_root$1 root:^(Hashmap n X): the canonical Patricia tree (Spec/Hashmap.v) of
+           the n-bit keys and the encoded values, with the reference label kinds *)
+        match x with
+        | PNone => ok_bits [false]
+        | PDict kvs =>
+            bind (mapM (fun kv => rmap (fun p => (enc n (fst kv), p)) (enc_field vf (snd kv))) kvs)
+              (fun src =>
+               match s_patricia (S n) src with
+               | Some e =>
+                   let t := canon_kinds (canon_vtree e) n in
+                   if vtree_ok t n then Ok ([true], [cell_of t n]) else Err ECell
+               | None => Err EDict
+               end)
+        | _ => Err EType
+        end
+    | FConst _ => ok_bits []
     end.
 
   Fixpoint enc_fields (look : string -> pv) (fs : list (string * fty)) : enc_res :=
@@ -199,6 +235,8 @@ Section Enc.
     | INamed nm f => enc_field f (look nm)
     | IGroup fs => bind (enc_fields look fs) (fun '(b, r) => Ok ([], [Cell ty_ordinary b r]))
     | IConst _ bits => ok_bits bits
+    | INamedHex nm _ _ => match look nm with PBytes bs => ok_bits (enc_bytes bs) | _ => Err EType end
+    | IGuard _ _ _ => ok_bits []
     end.
 
   Fixpoint enc_items (look : string -> pv) (its : list item) : enc_res :=
@@ -210,7 +248,7 @@ Section Enc.
     end.
 
   Definition enc_ctor (c : ctor) (v : pv) : enc_res :=
-    bind (enc_items (field_of v) (c_items c)) (fun '(b, r) => Ok (c_tag c ++ b, r)).
+    bind (enc_items (ctor_look c v) (c_items c)) (fun '(b, r) => Ok (c_tag c ++ b, r)).
 
   Definition enc_layout (L : tlayout) (v : pv) : enc_res :=
     match find (fun c => ctor_matches c v) (t_ctors L) with
@@ -235,6 +273,16 @@ Fixpoint enc_type (st : stable) (d : nat) (T : string) (a : list Z) (v : pv) : e
 Definition addr_int (a : addr) : bool := match a with AddrStd _ _ _ => true | _ => false end.
 Definition addr_ext (a : addr) : bool := match a with AddrNone | AddrExt _ _ => true | _ => false end.
 
+Fixpoint ascending (l : list Z) : bool :=
+  match l with
+  | a :: (b :: _) as r => (a <? b) && ascending r
+  | _ => true
+  end.
+
+(* Forall, as a conjunction (so that it computes on a closed list) *)
+Fixpoint all_of {A} (P : A -> Prop) (l : list A) : Prop :=
+  match l with [] => True | x :: r => P x /\ all_of P r end.
+
 Section Wt.
   Variable wty : string -> list Z -> pv -> Prop.
 
@@ -258,7 +306,16 @@ Section Wt.
     | FMaybeCell => match x with PNone | PCell _ => True | _ => False end
     | FType T a | FRefType T a => wty T a x
     | FMaybe g => match x with PNone => True | _ => wt_field g x end
-    | FDict n vf => x = PNone
+    | FDict n vf =>
+        (* None for the empty dictionary, else a Python dict in ascending key order *)
+        match x with
+        | PNone => True
+        | PDict kvs =>
+            kvs <> [] /\ ascending (map fst kvs) = true /\
+            all_of (fun kv => 0 <= fst kv < 2 ^ Z.of_nat n /\ wt_field vf (snd kv)) kvs
+        | _ => False
+        end
+    | FConst c => x = cval_pv c
     end.
 
   Fixpoint wt_fields (look : string -> pv) (fs : list (string * fty)) : Prop :=
@@ -269,6 +326,12 @@ Section Wt.
     | INamed nm f => wt_field f (look nm)
     | IGroup fs => wt_fields look fs
     | IConst _ _ => True
+    | INamedHex nm hexnm n =>
+        match look nm with
+        | PBytes bs => List.length bs = n /\ bytes_okb bs = true /\ look hexnm = PHex bs
+        | _ => False
+        end
+    | IGuard op a b => guard_holds look op a b = true
     end.
 
   Fixpoint wt_items (look : string -> pv) (its : list item) : Prop :=
@@ -281,7 +344,8 @@ Section Wt.
     | RNone => v = PNone
     | RObj cls consts =>
         v = PObj cls (map (fun nm => (nm, field_of v nm)) (ctor_names consts (c_items c)))
-    end /\ wt_items (field_of v) (c_items c).
+    | RSame => True
+    end /\ wt_items (ctor_look c v) (c_items c).
 
   Definition wt_layout (L : tlayout) (v : pv) : Prop :=
     match find (fun c => ctor_matches c v) (t_ctors L) with
@@ -346,6 +410,7 @@ Fixpoint compile_field (f : fty) (nm : string) (sid n ns : nat) (acc : list (str
       DOp sid (ODict w (compile_field vf ""%string 0 0 1 []
                           (fun _ _ a => DRet (match a with [(_, e)] => e | _ => ENone end))))
         (DIf n 0 (k (S n) ns (acc ++ [(nm, ENone)])) (k (S n) ns (acc ++ [(nm, EVar n)])))
+  | FConst c => k n ns (acc ++ [(nm, cval_expr c)])
   end.
 
 Fixpoint compile_fields (fs : list (string * fty)) (sid n ns : nat) (acc : list (string * dexpr)) (k : kont)
@@ -362,6 +427,24 @@ Fixpoint check_bits (v i : nat) (bits : list bool) (t : dtree) : dtree :=
   | b :: r => if b then DIf v i DFail (check_bits v (S i) r t) else DIf v i (check_bits v (S i) r t) DFail
   end.
 
+(* the variable an earlier field was loaded into *)
+Fixpoint assoc_expr (nm : string) (l : list (string * dexpr)) : dexpr :=
+  match l with
+  | [] => ENone
+  | (k, e) :: r => if String.eqb k nm then e else assoc_expr nm r
+  end.
+Definition gexpr_of (acc : list (string * dexpr)) (g : gref) : gexpr :=
+  match g with
+  | GNum z => GConst z
+  | GName nm =>
+      match assoc_expr nm acc with
+      | EVar i => GVar i
+      | EConstInt z => GConst z
+      | EConstBool true => GConst 1
+      | _ => GConst 0
+      end
+  end.
+
 Fixpoint compile_items (its : list item) (sid n ns : nat) (acc : list (string * dexpr)) (k : kont) : dtree :=
   match its with
   | [] => k n ns acc
@@ -372,12 +455,17 @@ Fixpoint compile_items (its : list item) (sid n ns : nat) (acc : list (string * 
         (compile_fields fs ns (S n) (S ns) acc (fun n' ns' acc' => compile_items r sid n' ns' acc' k))
   | IConst c bits :: r =>
       DOp sid (chunk_op c) (check_bits n 0 bits (compile_items r sid (S n) ns acc k))
+  | INamedHex nm hexnm w :: r =>
+      DOp sid (OBytes w) (compile_items r sid (S n) ns (acc ++ [(nm, EVar n); (hexnm, EHex (EVar n))]) k)
+  | IGuard op a b :: r =>
+      DGuard op (gexpr_of acc a) (gexpr_of acc b) DFail (compile_items r sid n ns acc k)
   end.
 
 Definition ret_expr (r : cret) (acc : list (string * dexpr)) : dexpr :=
   match r with
   | RNone => ENone
   | RObj cls consts => EObj cls (sort_by_name (map (fun '(nm, cv) => (nm, cval_expr cv)) consts ++ acc))
+  | RSame => match acc with [(_, e)] => e | _ => ENone end
   end.
 
 (* the body of a constructor, entered with n variables bound *)
@@ -465,7 +553,7 @@ Fixpoint wf_fty (f : fty) : bool :=
   | FUintLe m => (1 <=? m)%nat
   | FUintLt m | FVarUint m | FVarInt m => (2 <=? m)%nat
   | FMaybe g => wf_fty g
-  | FDict n vf => wf_fty vf
+  | FDict n vf => (1 <=? n)%nat && (n <=? 1023)%nat && wf_fty vf
   | _ => true
   end.
 Definition wf_item (it : item) : bool :=
@@ -473,10 +561,25 @@ Definition wf_item (it : item) : bool :=
   | INamed _ f => wf_fty f
   | IGroup fs => forallb (fun p => wf_fty (snd p)) fs
   | IConst c bits => chunk_ok c bits
+  | INamedHex _ _ _ | IGuard _ _ _ => true
+  end.
+(* the operands of every constraint are bound by an earlier item of the constructor *)
+Definition gref_bound (bound : list string) (g : gref) : bool :=
+  match g with GNum _ => true | GName nm => existsb (String.eqb nm) bound end.
+Fixpoint guards_bound (bound : list string) (its : list item) : bool :=
+  match its with
+  | [] => true
+  | it :: r =>
+      match it with IGuard _ a b => gref_bound bound a && gref_bound bound b | _ => true end
+      && guards_bound (bound ++ item_names it) r
   end.
 Definition wf_ctor (m : tagmode) (c : ctor) : bool :=
-  forallb wf_item (c_items c)
-  && match c_ret c with RNone => match c_items c with [] => true | _ => false end | RObj _ _ => true end
+  forallb wf_item (c_items c) && guards_bound [] (c_items c)
+  && match c_ret c with
+     | RNone => match c_items c with [] => true | _ => false end
+     | RObj _ _ => true
+     | RSame => match c_items c with [INamed _ _] => true | _ => false end
+     end
   && match m with TagBitwise => true | TagChunk ck => chunk_ok ck (c_tag c) end.
 
 (* the tags form a prefix code: along the trie, a finished tag is alone *)
@@ -497,18 +600,6 @@ Definition wf_layout (L : tlayout) : bool :=
   forallb (wf_ctor (t_mode L)) (t_ctors L) && trie_ok (tag_fuel (t_ctors L)) (tagged_of (t_ctors L)).
 Definition wf_table (st : stable) : bool := forallb (fun '(_, _, L) => wf_layout L) st.
 
-(* fragment of the layouts whose values never contain a non-empty dictionary *)
-Fixpoint dict_free_fty (f : fty) : bool :=
-  match f with FDict _ _ => false | FMaybe g => dict_free_fty g | _ => true end.
-Definition dict_free_item (it : item) : bool :=
-  match it with
-  | INamed _ f => dict_free_fty f
-  | IGroup fs => forallb (fun p => dict_free_fty (snd p)) fs
-  | IConst _ _ => true
-  end.
-Definition dict_free (L : tlayout) : bool :=
-  forallb (fun c => forallb dict_free_item (c_items c)) (t_ctors L).
-
 (* ------------------------------------------------------------------------------------------------ *)
 (* Fuel: an upper bound of the number of [run] steps, value independent                               *)
 (* ------------------------------------------------------------------------------------------------ *)
@@ -519,7 +610,9 @@ Section Need.
     | FType T a => S (nty T a)
     | FRefType T a => S (S (nty T a))
     | FMaybe g => S (S (need_field g))
-    | FMaybeCell | FDict _ _ => 2
+    | FMaybeCell => 2
+    | FDict _ vf => 3 + need_field vf
+    | FConst _ => 0
     | _ => 1
     end.
   Definition need_fields (fs : list (string * fty)) : nat :=
@@ -529,6 +622,7 @@ Section Need.
     | INamed _ f => need_field f
     | IGroup fs => S (need_fields fs)
     | IConst _ bits => S (List.length bits)
+    | INamedHex _ _ _ | IGuard _ _ _ => 1
     end.
   Definition need_items (its : list item) : nat := fold_right (fun it m => (need_item it + m)%nat) 0%nat its.
   Definition need_ctor (c : ctor) : nat := S (need_items (c_items c)).
@@ -544,3 +638,32 @@ Fixpoint need_type (st : stable) (d : nat) (T : string) (a : list Z) : nat :=
             end
   end.
 Definition need (st : stable) (L : tlayout) : nat := need_layout (need_type st tdepth) L.
+
+(* ------------------------------------------------------------------------------------------------ *)
+(* Coverage: every named type reachable from a layout is in the table (within depth d)                *)
+(* ------------------------------------------------------------------------------------------------ *)
+Fixpoint fty_refs (f : fty) : list (string * list Z) :=
+  match f with
+  | FType T a | FRefType T a => [(T, a)]
+  | FMaybe g => fty_refs g
+  | FDict _ v => fty_refs v
+  | _ => []
+  end.
+Definition item_refs (it : item) : list (string * list Z) :=
+  match it with
+  | INamed _ f => fty_refs f
+  | IGroup fs => flat_map (fun p => fty_refs (snd p)) fs
+  | _ => []
+  end.
+Definition layout_refs (L : tlayout) : list (string * list Z) :=
+  flat_map (fun c => flat_map item_refs (c_items c)) (t_ctors L).
+Fixpoint resolves_type (st : stable) (d : nat) (T : string) (a : list Z) : bool :=
+  match d with
+  | O => false
+  | S d' => match slookup st T a with
+            | None => false
+            | Some L => forallb (fun p => resolves_type st d' (fst p) (snd p)) (layout_refs L)
+            end
+  end.
+Definition resolves (st : stable) (L : tlayout) : bool :=
+  forallb (fun p => resolves_type st tdepth (fst p) (snd p)) (layout_refs L).
